@@ -45,6 +45,13 @@ def indent(run: Run) -> list[dict]:
     return IG.generate(run)
 
 
+def fmode(run: Run) -> list[dict]:
+    """Single-line f-string inputs with the token stream the mode-machine model predicts (FMode.tla)."""
+    from . import fmode as FM
+
+    return FM.generate(run)
+
+
 def editgen(run: Run, seeds: list[str], repl: list[str], ops=("prefix", "del", "ins", "rep"), name="editgen") -> list[dict]:
     """Every proper prefix / single-character edit of every seed (EditGen.tla); returns
     [{"src", "seed", "op", "pos", "cls"}] with the edit applied by the canonical representative."""
